@@ -369,7 +369,7 @@ SGal3TangentBase<_Derived>::smallAdj() const {
   Jacobian smallAdj;
 
   smallAdj.template topLeftCorner<3,3>() = skew(ang());
-  smallAdj.template block<3, 3>(0, 3) = -t() * Eigen::Matrix3d::Identity();
+  smallAdj.template block<3, 3>(0, 3) = -t() * Eigen::Matrix<Scalar, 3, 3>::Identity();
   smallAdj.template block<3, 3>(0, 6) = skew(lin());
   smallAdj.template block<3, 1>(0, 9) = lin2();
 
